@@ -59,6 +59,21 @@ class TemplateReturn:
     value: ast.JoinedStr
 
 
+_FLIP = {ast.NotEq: ast.Eq, ast.NotIn: ast.In, ast.IsNot: ast.Is}
+
+
+def canonical_atom(e: ast.AST, pol: bool) -> Tuple[ast.AST, bool]:
+    """Strip `not`, rewrite negative comparison operators to the positive one with flipped polarity."""
+    while isinstance(e, ast.UnaryOp) and isinstance(e.op, ast.Not):
+        e, pol = e.operand, not pol
+    if isinstance(e, ast.Compare) and len(e.ops) == 1 and type(e.ops[0]) in _FLIP:
+        e = ast.Compare(left=e.left, ops=[_FLIP[type(e.ops[0])]()], comparators=e.comparators)
+        pol = not pol
+    if isinstance(e, ast.Call) and isinstance(e.func, ast.Name) and e.func.id == "bool" and len(e.args) == 1:
+        return canonical_atom(e.args[0], pol)
+    return e, pol
+
+
 class FV:
     """Everything the rules need to know about one function (optionally for a concrete `self` class)."""
 
@@ -72,6 +87,9 @@ class FV:
         self.registry = None  # Effects instance (shared cache of function views), set by Effects.fv
         self.res.inliner = self._inline
         self._inlining = False
+        for cname, cval in f.module.assigns.items():
+            if isinstance(cval, ast.Constant) and isinstance(cval.value, (str, int, float)) and not isinstance(cval.value, bool):
+                self.res.module_consts[cname] = cval
         for n in self.cfg.nodes:
             for r in node_roots(n):
                 for sub in own_walk(r):
@@ -183,7 +201,18 @@ class FV:
                         isinstance(a.value, int) or a.value.startswith(("loop@", "comp@"))) and n.func.id in ("§elem", "§idx", "§key", "§val", "§def", "§mut", "§rec") else a for a in n.args]
                 return n
 
-        return S().visit(copy.deepcopy(term))
+        out = S().visit(copy.deepcopy(term))
+
+        class N(ast.NodeTransformer):
+            # §norm(base, variants...) : after substitution the base must be re-derived from the variants
+            def visit_Call(self, n: ast.Call):
+                n = self.generic_visit(n)
+                if is_sym(n, "norm") and len(n.args) >= 2:
+                    variants = sorted(n.args[1:], key=key)
+                    return ast.Call(func=n.func, args=[strip_norm(variants[0])] + variants, keywords=[])
+                return n
+
+        return N().visit(out)
 
     def _inline(self, resolved_call: ast.Call, raw_call: ast.Call) -> Optional[ast.AST]:
         hv = self._helper_view(raw_call)
@@ -306,6 +335,55 @@ class FV:
             if d in raising:
                 continue
             out.append((d, pol))
+        return out
+
+    def atoms_at(self, node: int, within: Optional[Set[int]] = None, skip_raising: bool = False) -> List[Tuple[ast.AST, bool, int]]:
+        """Canonical atomic conditions that hold when control reaches `node`: resolved, `not` stripped,
+        != / not in / is not rewritten to their positive form with flipped polarity.  Only *atomic* facts
+        (no and/or) whose branch lies in `within` (if given); with skip_raising the fall-through facts of
+        `if bad: raise` guards are left out.  -> [(atom, polarity, branch node)]"""
+        raising = {n.id for n, _, _, _ in self.raising_guards()} if skip_raising else set()
+        out: List[Tuple[ast.AST, bool, int]] = []
+        seen = set()
+        for atom, pol, branch in self.cfg.facts_at(node):
+            if within is not None and branch not in within:
+                continue
+            if branch in raising:
+                continue
+            if isinstance(atom, ast.BoolOp) or (isinstance(atom, ast.UnaryOp) and isinstance(atom.op, ast.Not)):
+                continue  # their decomposition is present as separate facts
+            if isinstance(atom, ast.Compare) and len(atom.ops) > 1:
+                continue
+            r, p = canonical_atom(self.res.resolve(atom, branch), pol)
+            k = (key(r), p)
+            if k not in seen:
+                seen.add(k)
+                out.append((r, p, branch))
+        if within is None and not skip_raising:
+            for r0, pol, raw in self.helper_exit_facts(node):
+                if isinstance(raw, ast.BoolOp) or (isinstance(raw, ast.UnaryOp) and isinstance(raw.op, ast.Not)) or (isinstance(raw, ast.Compare) and len(raw.ops) > 1):
+                    continue
+                r, p = canonical_atom(r0, pol)
+                k = (key(r), p)
+                if k not in seen:
+                    seen.add(k)
+                    out.append((r, p, -1))
+        return out
+
+    def compound_conditions_at(self, node: int, within: Optional[Set[int]] = None, skip_raising: bool = False) -> List[Tuple[ast.AST, bool, int]]:
+        """Facts that could not be decomposed into atoms (e.g. `A and B` known False)."""
+        raising = {n.id for n, _, _, _ in self.raising_guards()} if skip_raising else set()
+        out = []
+        for atom, pol, branch in self.cfg.facts_at(node):
+            if within is not None and branch not in within:
+                continue
+            if branch in raising:
+                continue
+            core, p = atom, pol
+            while isinstance(core, ast.UnaryOp) and isinstance(core.op, ast.Not):
+                core, p = core.operand, not p
+            if isinstance(core, ast.BoolOp) and ((isinstance(core.op, ast.And) and not p) or (isinstance(core.op, ast.Or) and p)):
+                out.append((self.res.resolve(core, branch), p, branch))
         return out
 
     def rforall_at(self, node: int) -> List[Tuple[int, ast.AST, bool, ast.AST]]:
